@@ -646,10 +646,56 @@ def _binop(op, l, r) -> tuple:
     return ("binop", name, l, r)
 
 
+def _subst_cvars(t, m: dict):
+    if not isinstance(t, tuple):
+        return t
+    if len(t) == 2 and t[0] == "cvar" and t[1] in m:
+        return m[t[1]]
+    return tuple(_subst_cvars(x, m) for x in t)
+
+
+def _bind_target(tgt, row, m: dict) -> bool:
+    """match a comprehension target term against one element of what it iterates over"""
+    if tgt[0] == "cvar":
+        m[tgt[1]] = row
+        return True
+    if tgt[0] in ("tuple", "list"):
+        if row[0] in ("tuple", "list") and len(row[1]) == len(tgt[1]) and not any(x[0] == "star" for x in row[1] + tgt[1]):
+            return all(_bind_target(a, b, m) for a, b in zip(tgt[1], row[1]))
+        if row[0] == "const" and isinstance(row[1], (tuple, list)) and len(row[1]) == len(tgt[1]):
+            return all(_bind_target(a, _const(b), m) for a, b in zip(tgt[1], row[1]))
+    return False
+
+
+def _comp_element(base, i: int):
+    """element ``i`` of an unfiltered list comprehension / generator over a display or constant of known length"""
+    if not (base[0] == "comp" and base[1] in ("ListComp", "GeneratorExp") and len(base[3]) == 1):
+        return None
+    tgt, it, conds = base[3][0]
+    if conds:
+        return None
+    if it[0] in ("tuple", "list") and not any(x[0] == "star" for x in it[1]):
+        rows = list(it[1])
+    elif it[0] == "const" and isinstance(it[1], (tuple, list)):
+        rows = [_const(x) for x in it[1]]
+    else:
+        return None
+    if not -len(rows) <= i < len(rows):
+        return None
+    m: dict = {}
+    if not _bind_target(tgt, rows[i], m):
+        return None
+    return _subst_cvars(base[2], m)
+
+
 def _sub(base, idx) -> tuple:
     if base[0] in ("tuple", "list") and idx[0] == "const" and isinstance(idx[1], int):
         if not any(x[0] == "star" for x in base[1]) and -len(base[1]) <= idx[1] < len(base[1]):
             return base[1][idx[1]]
+    if base[0] == "comp" and idx[0] == "const" and isinstance(idx[1], int):
+        el = _comp_element(base, idx[1])
+        if el is not None:
+            return el
     if base[0] == "const" and idx[0] == "const":
         try:
             return _const(base[1][idx[1]])
